@@ -21,7 +21,8 @@ Definition fpack_ok (s : sem) : Prop :=
   s_fixed (m_sizing s) = true ->
   forall f, match m_pack s SFixed f with Ok (w, _) => 0 <= w | Err e => soft e end.
 
-Definition cgood (it : citem) : Prop := Good (ci_sem it) /\ (ci_kind it = KPack -> fpack_ok (ci_sem it)).
+Definition cgoodN (n : Z) (it : citem) : Prop := GoodN n (ci_sem it) /\ (ci_kind it = KPack -> fpack_ok (ci_sem it)).
+Notation cgood := (cgoodN 1).
 
 (* the items covered: box columns hold box widgets, the others flow widgets; 'pack' columns hold flow widgets *)
 Definition cols_item_ok (CS : sizing) (it : citem) : Prop :=
@@ -30,11 +31,11 @@ Definition cols_item_ok (CS : sizing) (it : citem) : Prop :=
       else s_flow CS = true -> s_flow (m_sizing (ci_sem it)) = true)
   /\ (s_box CS = true -> s_box (m_sizing (ci_sem it)) = true).
 
-Lemma item_static_ok CS it maxcol mw fo :
-  cgood it -> cols_item_ok CS it -> 1 <= maxcol -> 0 <= mw ->
+Lemma item_static_ok n CS it maxcol mw fo :
+  0 <= n -> cgoodN n it -> cols_item_ok CS it -> 1 <= maxcol -> 0 <= mw ->
   match item_static it maxcol mw fo with Ok sw => 0 <= sw | Err e => soft e end.
 Proof.
-  intros [G FP] [K _] Hc Hm. unfold item_static.
+  intros Hn0 [G FP] [K _] Hc Hm. unfold item_static.
   destruct (ci_kind it) eqn:EK.
   - lia.
   - rewrite K. rewrite orb_true_r.
@@ -53,28 +54,28 @@ Proof.
   - exact Hm.
 Qed.
 
-Lemma items_arith_ok CS l maxcol mw :
-  Forall cgood l -> Forall (cols_item_ok CS) l -> 1 <= maxcol -> 0 <= mw ->
+Lemma items_arith_ok n CS l maxcol mw :
+  0 <= n -> Forall (cgoodN n) l -> Forall (cols_item_ok CS) l -> 1 <= maxcol -> 0 <= mw ->
   Forall (item_arith_ok maxcol mw) l.
 Proof.
-  intros HG HO Hc Hm. induction l as [|it l IH]; [constructor|].
+  intros Hn0 HG HO Hc Hm. induction l as [|it l IH]; [constructor|].
   inversion HG; inversion HO; subst. constructor; auto.
   unfold item_arith_ok. pose proof H5 as [K _].
   destruct (ci_kind it) eqn:EK; try lia.
-  intros fo sw E. pose proof (item_static_ok CS it maxcol mw fo H1 H5 Hc Hm) as S. rewrite E in S. exact S.
+  intros fo sw E. pose proof (item_static_ok n CS it maxcol mw fo Hn0 H1 H5 Hc Hm) as S. rewrite E in S. exact S.
 Qed.
 
-Lemma loop1_soft CS maxcol d mw f fp : 1 <= maxcol -> 0 <= mw -> forall l i shared,
-  Forall cgood l -> Forall (cols_item_ok CS) l ->
+Lemma loop1_soft n CS maxcol d mw f fp : 0 <= n -> 1 <= maxcol -> 0 <= mw -> forall l i shared,
+  Forall (cgoodN n) l -> Forall (cols_item_ok CS) l ->
   match cw_loop1 l maxcol d mw f fp i shared with Ok _ => True | Err e => soft e end.
 Proof.
-  intros Hc Hm. induction l as [|it l IH]; intros i shared HG HO; cbn [cw_loop1]; [exact I|].
+  intros Hn0 Hc Hm. induction l as [|it l IH]; intros i shared HG HO; cbn [cw_loop1]; [exact I|].
   inversion HG; inversion HO; subst.
   change (match ci_kind it with
           | KGiven => Ok (ci_amount it)
           | KPack => _
           | KWeight => Ok mw end) with (item_static it maxcol mw (item_focus f fp i)).
-  pose proof (item_static_ok CS it maxcol mw (item_focus f fp i) H1 H5 Hc Hm) as S.
+  pose proof (item_static_ok n CS it maxcol mw (item_focus f fp i) Hn0 H1 H5 Hc Hm) as S.
   destruct (item_static it maxcol mw (item_focus f fp i)) as [sw|e]; cbn [bind]; [|exact S].
   destruct ((shared <? sw + d) && (fp <? i)); [exact I|].
   specialize (IH (i + 1) (shared - (sw + d)) H2 H6).
@@ -82,16 +83,16 @@ Proof.
 Qed.
 
 (* Columns.column_widths: non-negative widths that fit, or a starved child *)
-Lemma column_widths_ok CS l d mw fp maxcol f :
-  Forall cgood l -> Forall (cols_item_ok CS) l -> 0 <= d -> 0 <= mw -> 1 <= maxcol -> 0 <= fp < zlength l ->
+Lemma column_widths_ok n CS l d mw fp maxcol f :
+  0 <= n -> Forall (cgoodN n) l -> Forall (cols_item_ok CS) l -> 0 <= d -> 0 <= mw -> 1 <= maxcol -> 0 <= fp < zlength l ->
   match column_widths l d mw fp maxcol f with
   | Ok F => Forall (fun w => 0 <= w) F /\ rtotal F (zlength F) d 0 <= maxcol /\ (length F <= length l)%nat
   | Err e => soft e
   end.
 Proof.
-  intros HG HO Hd Hm Hc Hfp.
-  pose proof (items_arith_ok CS l maxcol mw HG HO Hc Hm) as HA.
-  pose proof (loop1_soft CS maxcol d mw f fp Hc Hm l 0 (maxcol + d) HG HO) as L1.
+  intros Hn0 HG HO Hd Hm Hc Hfp.
+  pose proof (items_arith_ok n CS l maxcol mw Hn0 HG HO Hc Hm) as HA.
+  pose proof (loop1_soft n CS maxcol d mw f fp Hn0 Hc Hm l 0 (maxcol + d) HG HO) as L1.
   destruct (cw_loop1 l maxcol d mw f fp 0 (maxcol + d)) as [[[ws wt] sh]|e] eqn:E1.
   - destruct (column_widths_total l d mw fp maxcol f ws wt sh HA Hd Hm ltac:(lia) Hfp E1) as [F EF].
     rewrite EF. apply (widths_fit l d mw fp maxcol f F HA Hd Hm ltac:(lia) Hfp EF).
@@ -192,9 +193,9 @@ Proof. induction ws as [|w ws IH]; cbn; [reflexivity|]. rewrite IH. reflexivity.
 Definition rendered_ok (r : Z) (e : canv * Z) : Prop :=
   0 <= snd e - cc (fst e) /\ 0 <= cc (fst e) /\ cr (fst e) = r /\ rect (fst e) = true /\ inside (fst e).
 
-Lemma render_box r n d f fp : 1 <= r -> 0 <= d -> forall ws l i,
+Lemma render_box k r n d f fp : 1 <= r -> 0 <= d -> forall ws l i,
   (length ws <= length l)%nat -> Forall (fun w => 0 <= w) ws ->
-  Forall cgood l -> Forall (fun it => s_box (m_sizing (ci_sem it)) = true) l ->
+  Forall (cgoodN k) l -> Forall (fun it => s_box (m_sizing (ci_sem it)) = true) l ->
   match cols_render_items l (map (fun w => (w, r, SBox w r)) ws) n d f fp i with
   | Ok data => sumw data = rtotal ws n d i /\ Forall (rendered_ok r) data
   | Err e => soft e
@@ -219,22 +220,22 @@ Proof.
       * constructor; auto. unfold rendered_ok. cbn [fst snd]. destruct (i <? n - 1); repeat split; auto; lia.
 Qed.
 
-Lemma cols_box_ok CS l d mw fp c r f :
-  Forall cgood l -> Forall (cols_item_ok CS) l -> s_box CS = true ->
+Lemma cols_box_ok k CS l d mw fp c r f :
+  0 <= k -> Forall (cgoodN k) l -> Forall (cols_item_ok CS) l -> s_box CS = true ->
   0 <= d -> 0 <= mw -> 0 <= fp < zlength l -> 1 <= c -> 1 <= r ->
   match cols_render l d mw fp (SBox c r) f with
   | Ok cv => cc cv = c /\ cr cv = r /\ (rect cv = true /\ inside cv)
   | Err e => soft e
   end.
 Proof.
-  intros HG HO HS Hd Hm Hfp Hc Hr. unfold cols_render, cols_sizes.
-  pose proof (column_widths_ok CS l d mw fp c f HG HO Hd Hm Hc Hfp) as W.
+  intros Hk0 HG HO HS Hd Hm Hfp Hc Hr. unfold cols_render, cols_sizes.
+  pose proof (column_widths_ok k CS l d mw fp c f Hk0 HG HO Hd Hm Hc Hfp) as W.
   destruct (column_widths l d mw fp c f) as [ws|e]; cbn [bind]; [|exact W].
   destruct W as [W1 [W2 W3]].
   assert (HB : Forall (fun it => s_box (m_sizing (ci_sem it)) = true) l).
   { eapply Forall_impl; [|exact HO]. intros it [_ [_ H]]. auto. }
   rewrite (plan_box c r f fp ws l 0 W3 HB). cbn [bind]. rewrite finish_box.
-  pose proof (render_box r (zlength (map (fun w => (w, r, SBox w r)) ws)) d f fp Hr Hd ws l 0 W3 W1 HG HB) as R.
+  pose proof (render_box k r (zlength (map (fun w => (w, r, SBox w r)) ws)) d f fp Hr Hd ws l 0 W3 W1 HG HB) as R.
   destruct (cols_render_items l (map (fun w => (w, r, SBox w r)) ws) (zlength (map (fun w => (w, r, SBox w r)) ws)) d f fp 0)
     as [data|e]; cbn [bind]; [|exact R].
   destruct R as [R1 R2].
@@ -257,23 +258,23 @@ Qed.
 
 (* ------------------------------------------------------------------ flow Columns *)
 (* what get_column_sizes decided for each column of a flow Columns *)
-Fixpoint plan_rel (f : bool) (fp : Z) (ws : list Z) (l : list citem) (ps : list cplan) (i : Z) : Prop :=
+Fixpoint plan_rel (n : Z) (f : bool) (fp : Z) (ws : list Z) (l : list citem) (ps : list cplan) (i : Z) : Prop :=
   match ws, l, ps with
   | [], _, [] => True
   | w :: wr, it :: r, p :: pr =>
       (if ci_box it then p = CPBox /\ s_box (m_sizing (ci_sem it)) = true
        else s_flow (m_sizing (ci_sem it)) = true /\
             exists h, p = CPDone h (SFlow w)
-                      /\ ((0 < w /\ m_rows (ci_sem it) w (item_focus f fp i) = Ok h /\ 1 <= h) \/ (w = 0 /\ h = 0)))
-      /\ plan_rel f fp wr r pr (i + 1)
+                      /\ ((0 < w /\ m_rows (ci_sem it) w (item_focus f fp i) = Ok h /\ n <= h) \/ (w = 0 /\ h = 0)))
+      /\ plan_rel n f fp wr r pr (i + 1)
   | _, _, _ => False
   end.
 
-Lemma plan_flow CS c f fp : s_flow CS = true -> forall ws l i,
+Lemma plan_flow n CS c f fp : s_flow CS = true -> forall ws l i,
   (length ws <= length l)%nat -> Forall (fun w => 0 <= w) ws ->
-  Forall cgood l -> Forall (cols_item_ok CS) l ->
+  Forall (cgoodN n) l -> Forall (cols_item_ok CS) l ->
   match cols_plan ws l (SFlow c) f fp i with
-  | Ok ps => plan_rel f fp ws l ps i
+  | Ok ps => plan_rel n f fp ws l ps i
   | Err e => soft e
   end.
 Proof.
@@ -319,21 +320,21 @@ Proof.
   destruct ps as [|[h s|] ps]; cbn; [reflexivity| |]; rewrite IH; reflexivity.
 Qed.
 
-Lemma heights_facts f fp maxh : forall ws l ps i, plan_rel f fp ws l ps i -> Forall (fun w => 0 <= w) ws ->
+Lemma heights_facts n f fp maxh : 0 <= n -> forall ws l ps i, plan_rel n f fp ws l ps i -> Forall (fun w => 0 <= w) ws ->
   (forall x, In x (shown_heights ws ps maxh) -> In x (all_heights ws ps maxh))
   /\ (forall x, In x (all_heights ws ps maxh) -> x = maxh \/ In x (cplan_heights ps))
   /\ (forall x, In x (cplan_heights ps) -> In x (all_heights ws ps maxh))
   /\ (forall x, In x (cplan_heights ps) -> 1 <= x -> In x (shown_heights ws ps maxh))
-  /\ (forall x, In x (shown_heights ws ps maxh) -> x = maxh \/ (In x (cplan_heights ps) /\ 1 <= x))
+  /\ (forall x, In x (shown_heights ws ps maxh) -> x = maxh \/ In x (cplan_heights ps))
   /\ (forall x, In x (cplan_heights ps) -> 0 <= x)
   /\ length (all_heights ws ps maxh) = length ws.
 Proof.
-  induction ws as [|w ws IH]; intros l ps i HP HW.
+  intros Hn0. induction ws as [|w ws IH]; intros l ps i HP HW.
   - destruct ps; [|destruct l; contradiction]. cbn. repeat split; intros; try contradiction; auto.
   - destruct l as [|it l]; [contradiction|]. destruct ps as [|p ps]; [contradiction|].
     cbn [plan_rel] in HP. destruct HP as [HE HR]. inversion HW; subst.
     destruct (IH l ps (i + 1) HR H2) as [A [B [C [D [E [F L]]]]]].
-    unfold cplan_heights in *. 
+    unfold cplan_heights in *.
     destruct (ci_box it).
     + destruct HE as [-> _]. cbn [all_heights shown_heights flat_map app].
       repeat split.
@@ -353,10 +354,10 @@ Proof.
         -- destruct (w <=? 0) eqn:EW; [lia|left; auto].
         -- destruct (w <=? 0); [auto|right; auto].
       * intros x Hx. destruct (w <=? 0) eqn:EW.
-        -- destruct (E x Hx) as [->|[E1 E2]]; auto. right. split; [right; auto|auto].
+        -- destruct (E x Hx) as [->|E1]; auto. right. right. auto.
         -- destruct Hx as [<-|Hx].
-           ++ right. split; [left; auto|lia].
-           ++ destruct (E x Hx) as [->|[E1 E2]]; auto. right. split; [right; auto|auto].
+           ++ right. left. auto.
+           ++ destruct (E x Hx) as [->|E1]; auto. right. right. auto.
       * intros x [<-|Hx]; [lia|auto].
       * cbn. lia.
 Qed.
@@ -402,16 +403,15 @@ Qed.
 Definition jok (e : canv * Z) : Prop :=
   0 <= snd e - cc (fst e) /\ 0 <= cc (fst e) /\ 0 <= cr (fst e) /\ rect (fst e) = true /\ inside (fst e).
 
-Lemma render_flow f fp maxh n d : 0 <= d -> forall ws l ps i,
-  plan_rel f fp ws l ps i -> Forall (fun w => 0 <= w) ws -> Forall cgood l ->
+Lemma render_flow k f fp maxh n d : 0 <= k -> 0 <= d -> 1 <= maxh -> forall ws l ps i,
+  plan_rel k f fp ws l ps i -> Forall (fun w => 0 <= w) ws -> Forall (cgoodN k) l ->
   match cols_render_items l (cols_finish ws ps maxh) n d f fp i with
   | Ok data => sumw data = rtotal ws n d i /\ Forall jok data
                /\ map (fun e => cr (fst e)) data = shown_heights ws ps maxh
-               /\ Forall (fun x => 1 <= x) (shown_heights ws ps maxh)
   | Err e => soft e
   end.
 Proof.
-  intros Hd. induction ws as [|w ws IH]; intros l ps i HP HW HG.
+  intros Hk0 Hd Hmh. induction ws as [|w ws IH]; intros l ps i HP HW HG.
   - destruct ps; [|destruct l; contradiction]. destruct l; cbn; repeat split; auto.
   - destruct l as [|it l]; [contradiction|]. destruct ps as [|p ps]; [contradiction|].
     cbn [plan_rel] in HP. destruct HP as [HE HR]. inversion HW; inversion HG; subst.
@@ -421,105 +421,91 @@ Proof.
     + destruct HE as [-> HB]. cbn [cols_finish cols_render_items rtotal shown_heights].
       destruct (w <=? 0) eqn:EW.
       * destruct (cols_render_items l (cols_finish ws ps maxh) n d f fp (i + 1)); [|exact IH].
-        destruct IH as [A [B [C D]]]. repeat split; auto; lia.
-      * destruct (Z_le_gt_dec maxh 0) as [Hz|Hz].
-        { rewrite (g_deg_render _ G); [cbn; auto|]. unfold degenerate. lia. }
-        pose proof (g_box _ G w maxh (item_focus f fp i) HB ltac:(lia) ltac:(lia)) as R.
+        destruct IH as [A [B C]]. repeat split; auto; lia.
+      * pose proof (g_box _ G w maxh (item_focus f fp i) HB ltac:(lia) Hmh) as R.
         destruct (m_render (ci_sem it) (SBox w maxh) (item_focus f fp i)) as [cv|e]; cbn [bind]; [|exact R].
         destruct R as [[R1 R2] [R3 R4]].
         destruct (cols_render_items l (cols_finish ws ps maxh) n d f fp (i + 1)) as [data|e]; cbn [bind]; [|exact IH].
-        destruct IH as [A [B [C D]]]. repeat split.
+        destruct IH as [A [B C]]. repeat split.
         -- cbn [sumw snd]. rewrite A. reflexivity.
         -- constructor; auto. unfold jok. cbn [fst snd]. destruct (i <? n - 1); repeat split; auto; lia.
         -- cbn [map fst]. rewrite C, R2. reflexivity.
-        -- constructor; auto. lia.
     + destruct HE as [HF [h [-> HH]]]. cbn [cols_finish cols_render_items rtotal shown_heights].
       destruct (w <=? 0) eqn:EW.
       * destruct (cols_render_items l (cols_finish ws ps maxh) n d f fp (i + 1)); [|exact IH].
-        destruct IH as [A [B [C D]]]. repeat split; auto; lia.
+        destruct IH as [A [B C]]. repeat split; auto; lia.
       * destruct HH as [[H0 [HRows H1h]]|[H0 _]]; [|lia].
         pose proof (g_flow _ G w (item_focus f fp i) HF ltac:(lia)) as R.
         destruct (m_render (ci_sem it) (SFlow w) (item_focus f fp i)) as [cv|e]; cbn [bind]; [|exact R].
         destruct R as [[R1 R2] [R3 R4]]. rewrite HRows in R2. inversion R2 as [R2'].
         destruct (cols_render_items l (cols_finish ws ps maxh) n d f fp (i + 1)) as [data|e]; cbn [bind]; [|exact IH].
-        destruct IH as [A [B [C D]]]. repeat split.
+        destruct IH as [A [B C]]. repeat split.
         -- cbn [sumw snd]. rewrite A. reflexivity.
         -- constructor; auto. unfold jok. cbn [fst snd]. destruct (i <? n - 1); repeat split; auto; lia.
         -- cbn [map fst]. rewrite C. try rewrite R2'. reflexivity.
-        -- constructor; auto. lia.
 Qed.
 
-(* the height of a flow Columns: what rows() says and what CanvasJoin produces *)
-Lemma heights_result f fp ws l ps i maxh :
-  plan_rel f fp ws l ps i -> Forall (fun w => 0 <= w) ws ->
+(* the height of a flow Columns: rows() = max(1, heights), and the joined canvas, padded to one row when
+   every shown column is empty (ba7db6e), has as many rows *)
+Lemma heights_result k f fp ws l ps i maxh :
+  0 <= k -> plan_rel k f fp ws l ps i -> Forall (fun w => 0 <= w) ws ->
   let FH := cplan_heights ps in
-  (FH = [] -> maxh = 1) -> (FH <> [] -> maxh = maxz FH) ->
+  (FH = [] -> maxh = 1) -> (FH <> [] -> maxh = Z.max 1 (maxz FH)) ->
   let AH := all_heights ws ps maxh in
   let RH := shown_heights ws ps maxh in
-  Forall (fun x => 1 <= x) RH -> AH <> [] ->
-  (RH = [] -> Z.max 1 (maxz AH) = 1)
-  /\ (RH <> [] -> 1 <= maxh /\ fold_left Z.max RH 0 = maxh /\ Z.max 1 (maxz AH) = maxh).
+  1 <= maxh
+  /\ (AH <> [] -> Z.max 1 (maxz AH) = maxh)
+  /\ Z.max 1 (fold_left Z.max RH 0) = maxh.
 Proof.
-  intros HP HW FH Hm1 Hm2 AH RH H1 HA.
-  destruct (heights_facts f fp maxh ws l ps i HP HW) as [A [B [C [D [E [F L]]]]]].
+  intros Hk0 HP HW FH Hm1 Hm2 AH RH.
+  destruct (heights_facts k f fp maxh Hk0 ws l ps i HP HW) as [A [B [C [D [E [F L]]]]]].
   fold FH AH RH in A, B, C, D, E, F.
-  assert (MF : FH <> [] -> (forall x, In x FH -> x <= maxh) /\ In maxh FH).
-  { intros Hne. rewrite (Hm2 Hne). apply maxz_facts. exact Hne. }
-  split.
-  - intros HR.
-    assert (Z0 : forall x, In x FH -> x = 0).
-    { intros x Hx. pose proof (F x Hx). destruct (Z_lt_ge_dec x 1); [lia|].
-      pose proof (D x Hx ltac:(lia)) as Hin. rewrite HR in Hin. inversion Hin. }
-    assert (M01 : maxh = 0 \/ maxh = 1).
-    { destruct FH as [|a r] eqn:EF; [right; apply Hm1; reflexivity|]. left. rewrite <- EF in *.
-      destruct (MF ltac:(congruence)) as [_ Hin]. apply Z0. exact Hin. }
-    destruct (maxz_facts AH HA) as [_ Hin].
-    destruct (B _ Hin) as [Hm|Hm]; [lia|]. rewrite (Z0 _ Hm). lia.
-  - intros HR.
-    assert (M1 : 1 <= maxh).
-    { destruct RH as [|x r] eqn:ER; [congruence|]. rewrite <- ER in *.
-      assert (Hx : In x RH) by (rewrite ER; left; auto).
-      pose proof (proj1 (Forall_forall _ _) H1 x Hx) as Hx1. cbn beta in Hx1.
-      destruct (E x Hx) as [->|[Hf _]]; [exact Hx1|].
-      assert (FH <> []) by (intro Hn; rewrite Hn in Hf; inversion Hf).
-      destruct (MF H) as [Hub _]. specialize (Hub x Hf). lia. }
-    assert (UB : forall x, In x AH -> x <= maxh).
-    { intros x Hx. destruct (B x Hx) as [->|Hf]; [lia|].
-      assert (FH <> []) by (intro Hn; rewrite Hn in Hf; inversion Hf).
-      destruct (MF H) as [Hub _]. apply Hub. exact Hf. }
-    assert (IN : In maxh RH).
-    { destruct FH as [|a r] eqn:EF.
-      - destruct RH as [|x r] eqn:ER; [congruence|]. rewrite <- ER in *.
-        assert (Hx : In x RH) by (rewrite ER; left; auto).
-        destruct (E x Hx) as [->|[Hf _]]; [exact Hx|inversion Hf].
-      - rewrite <- EF in *. destruct (MF ltac:(congruence)) as [_ Hin]. apply D; auto. }
-    split; [exact M1|]. split.
-    + destruct (fold_max_spec RH 0) as [P1 [P2 P3]].
-      pose proof (P1 maxh IN).
-      destruct P3 as [P3|P3]; [lia|]. pose proof (UB _ (A _ P3)). lia.
-    + rewrite (maxz_is AH maxh HA UB (A _ IN)). lia.
+  assert (M1 : 1 <= maxh).
+  { destruct FH as [|a r] eqn:EF; [rewrite Hm1; [lia|reflexivity]|]. rewrite Hm2; [lia|discriminate]. }
+  assert (UF : forall x, In x FH -> x <= maxh).
+  { intros x Hx. assert (Hne : FH <> []) by (intro Hn; rewrite Hn in Hx; inversion Hx).
+    rewrite (Hm2 Hne). destruct (maxz_facts FH Hne) as [Hub _]. specialize (Hub x Hx). lia. }
+  assert (UA : forall x, In x AH -> x <= maxh).
+  { intros x Hx. destruct (B x Hx) as [->|Hf]; [lia|auto]. }
+  assert (UR : forall x, In x RH -> x <= maxh).
+  { intros x Hx. destruct (E x Hx) as [->|Hf]; [lia|auto]. }
+  split; [exact M1|]. split.
+  - intros HA. destruct (maxz_facts AH HA) as [HubA HinA].
+    pose proof (UA _ HinA) as U1.
+    destruct (Z.eq_dec maxh 1) as [E1|E1]; [lia|].
+    assert (Hne : FH <> []) by (intro Hn; specialize (Hm1 Hn); lia).
+    destruct (maxz_facts FH Hne) as [_ HinF]. specialize (Hm2 Hne).
+    pose proof (HubA _ (C _ HinF)). lia.
+  - destruct (fold_max_spec RH 0) as [P1 [P2 P3]].
+    assert (U2 : fold_left Z.max RH 0 <= maxh).
+    { destruct P3 as [P3|P3]; [lia|auto]. }
+    destruct (Z.eq_dec maxh 1) as [E1|E1]; [lia|].
+    assert (Hne : FH <> []) by (intro Hn; specialize (Hm1 Hn); lia).
+    destruct (maxz_facts FH Hne) as [_ HinF]. specialize (Hm2 Hne).
+    assert (In maxh RH). { replace maxh with (maxz FH) by lia. apply D; [exact HinF|lia]. }
+    pose proof (P1 _ H). lia.
 Qed.
 
-Definition flow_maxh (ps : list cplan) : Z := match cplan_heights ps with [] => 1 | hs => maxz hs end.
+Definition flow_maxh (ps : list cplan) : Z := match cplan_heights ps with [] => 1 | hs => Z.max 1 (maxz hs) end.
 
-Lemma cols_sizes_flow CS l d mw fp c f : s_flow CS = true ->
-  Forall cgood l -> Forall (cols_item_ok CS) l -> 0 <= d -> 0 <= mw -> 0 <= fp < zlength l -> 1 <= c ->
+Lemma cols_sizes_flow k CS l d mw fp c f : 0 <= k -> s_flow CS = true ->
+  Forall (cgoodN k) l -> Forall (cols_item_ok CS) l -> 0 <= d -> 0 <= mw -> 0 <= fp < zlength l -> 1 <= c ->
   match cols_sizes l d mw fp (SFlow c) f with
-  | Ok t => exists ws ps, t = cols_finish ws ps (flow_maxh ps) /\ plan_rel f fp ws l ps 0
+  | Ok t => exists ws ps, t = cols_finish ws ps (flow_maxh ps) /\ plan_rel k f fp ws l ps 0
                           /\ Forall (fun w => 0 <= w) ws /\ rtotal ws (zlength ws) d 0 <= c
   | Err e => soft e
   end.
 Proof.
-  intros HCS HG HO Hd Hm Hfp Hc. unfold cols_sizes.
-  pose proof (column_widths_ok CS l d mw fp c f HG HO Hd Hm Hc Hfp) as W.
+  intros Hk0 HCS HG HO Hd Hm Hfp Hc. unfold cols_sizes.
+  pose proof (column_widths_ok k CS l d mw fp c f Hk0 HG HO Hd Hm Hc Hfp) as W.
   destruct (column_widths l d mw fp c f) as [ws|e]; cbn [bind]; [|exact W].
   destruct W as [W1 [W2 W3]].
-  pose proof (plan_flow CS c f fp HCS ws l 0 W3 W1 HG HO) as P.
+  pose proof (plan_flow k CS c f fp HCS ws l 0 W3 W1 HG HO) as P.
   destruct (cols_plan ws l (SFlow c) f fp 0) as [ps|e]; cbn [bind]; [|exact P].
   exists ws, ps. repeat split; auto.
 Qed.
 
-Lemma finish_length f fp maxh : forall ws l ps i, plan_rel f fp ws l ps i ->
+Lemma finish_length k f fp maxh : forall ws l ps i, plan_rel k f fp ws l ps i ->
   length (cols_finish ws ps maxh) = length ws.
 Proof.
   intros ws l ps i HP. rewrite <- (map_length (fun x : Z * Z * size => snd (fst x))). rewrite finish_heights.
@@ -529,57 +515,64 @@ Proof.
     destruct HP as [_ HR]. destruct p; cbn; rewrite (IH l ps (i + 1) HR); reflexivity.
 Qed.
 
-Lemma cols_good l d mw fp :
-  Forall cgood l -> Forall (cols_item_ok (cols_sizing l)) l ->
+(* Columns over children that may have no rows (Pile([])): the Columns itself always has at least one *)
+Lemma cols_good k l d mw fp :
+  0 <= k -> Forall (cgoodN k) l -> Forall (cols_item_ok (cols_sizing l)) l ->
   0 <= d -> 1 <= mw -> 0 <= fp < zlength l -> Good (cols_sem l d mw fp).
 Proof.
-  intros HG HO Hd Hm Hfp. unfold cols_sem. apply mk_node_good.
+  intros Hk0 HG HO Hd Hm Hfp. unfold cols_sem. apply mk_node_good.
   - (* rows *)
     intros c f Hs Hc. unfold cols_rows.
-    pose proof (cols_sizes_flow _ l d mw fp c f Hs HG HO Hd ltac:(lia) Hfp Hc) as S.
+    pose proof (cols_sizes_flow k _ l d mw fp c f Hk0 Hs HG HO Hd ltac:(lia) Hfp Hc) as S.
     destruct (cols_sizes l d mw fp (SFlow c) f) as [t|e]; cbn [bind]; [|exact S].
     destruct t; lia.
   - (* flow *)
     intros c f Hs Hc. unfold cols_render, cols_rows.
-    pose proof (cols_sizes_flow _ l d mw fp c f Hs HG HO Hd ltac:(lia) Hfp Hc) as S.
+    pose proof (cols_sizes_flow k _ l d mw fp c f Hk0 Hs HG HO Hd ltac:(lia) Hfp Hc) as S.
     destruct (cols_sizes l d mw fp (SFlow c) f) as [t|e]; cbn [bind]; [|exact S].
     destruct S as [ws [ps [-> [HP [HW HT]]]]].
-    pose proof (finish_length f fp (flow_maxh ps) ws l ps 0 HP) as FL.
-    pose proof (render_flow f fp (flow_maxh ps) (zlength (cols_finish ws ps (flow_maxh ps))) d Hd ws l ps 0 HP HW HG) as R.
+    pose proof (finish_length k f fp (flow_maxh ps) ws l ps 0 HP) as FL.
+    assert (Hm1 : cplan_heights ps = [] -> flow_maxh ps = 1).
+    { unfold flow_maxh. intros ->. reflexivity. }
+    assert (Hm2 : cplan_heights ps <> [] -> flow_maxh ps = Z.max 1 (maxz (cplan_heights ps))).
+    { unfold flow_maxh. destruct (cplan_heights ps); [congruence|reflexivity]. }
+    destruct (heights_result k f fp ws l ps 0 (flow_maxh ps) Hk0 HP HW Hm1 Hm2) as [M1 [HA HR]].
+    pose proof (render_flow k f fp (flow_maxh ps) (zlength (cols_finish ws ps (flow_maxh ps))) d Hk0 Hd M1 ws l ps 0 HP HW HG) as R.
     destruct (cols_render_items l (cols_finish ws ps (flow_maxh ps)) (zlength (cols_finish ws ps (flow_maxh ps))) d f fp 0)
       as [data|e]; cbn [bind]; [|exact R].
-    destruct R as [R1 [R2 [R3 R4]]].
+    destruct R as [R1 [R2 R3]].
     assert (EN : zlength (cols_finish ws ps (flow_maxh ps)) = zlength ws) by (unfold zlength; rewrite FL; reflexivity).
     rewrite EN in R1.
-    (* the heights *)
     pose proof (finish_heights (flow_maxh ps) ws ps) as FH.
     destruct (cols_finish ws ps (flow_maxh ps)) as [|t0 t] eqn:ET.
     { (* no columns at all *)
       destruct ws; [|cbn in FL; lia]. destruct data; [|cbn in R3; destruct ps; cbn in R3; discriminate].
       cbn. repeat split; auto. }
-    assert (HA : all_heights ws ps (flow_maxh ps) <> []).
-    { rewrite <- FH. discriminate. }
-    assert (Hm1 : cplan_heights ps = [] -> flow_maxh ps = 1).
-    { unfold flow_maxh. intros ->. reflexivity. }
-    assert (Hm2 : cplan_heights ps <> [] -> flow_maxh ps = maxz (cplan_heights ps)).
-    { unfold flow_maxh. destruct (cplan_heights ps); [congruence|reflexivity]. }
-    destruct (heights_result f fp ws l ps 0 (flow_maxh ps) HP HW Hm1 Hm2 R4 HA) as [H1 H2].
-    rewrite FH.
+    assert (HA' : all_heights ws ps (flow_maxh ps) <> []) by (rewrite <- FH; discriminate).
+    specialize (HA HA'). rewrite FH, HA.
     destruct data as [|e0 data].
-    + cbn [map] in R3. specialize (H1 (eq_sym R3)). cbn. rewrite H1. repeat split; auto.
-    + assert (HR : shown_heights ws ps (flow_maxh ps) <> []) by (rewrite <- R3; discriminate).
-      destruct (H2 HR) as [M1 [M2 M3]].
-      destruct (join_spec (e0 :: data)) as [cv [EJ [J1 [J2 [J3 J4]]]]].
+    + (* nothing is shown: one blank row *)
+      cbn [map] in R3. rewrite <- R3 in HR. cbn in HR. cbn. repeat split; auto. f_equal. lia.
+    + destruct (join_spec (e0 :: data)) as [cv [EJ [J1 [J2 [J3 J4]]]]].
       { intros e He. exact (proj1 (Forall_forall _ _) R2 e He). }
-      rewrite EJ. cbn [bind]. rewrite M3.
-      assert (J2' : cr cv = flow_maxh ps).
-      { rewrite J2, maxrows_map, R3. exact M2. }
-      destruct (cc cv <? c) eqn:EC.
-      * rewrite pad_lr_nonneg by lia.
-        pose proof (inside_pad_lr cv 0 (c - cc cv) ltac:(lia) ltac:(lia) J4) as IP. cbn in IP |- *.
-        repeat split; auto; try lia. f_equal. lia.
-      * repeat split; auto; try lia. f_equal. lia.
+      rewrite EJ. cbn [bind].
+      assert (J2' : Z.max 1 (cr cv) = flow_maxh ps).
+      { rewrite J2, maxrows_map, R3. exact HR. }
+      assert (S1 : exists c1, (if cc cv <? c then pad_trim_lr cv 0 (c - cc cv) else Ok cv) = Ok c1
+                              /\ cc c1 = c /\ cr c1 = cr cv /\ rect c1 = true /\ inside c1).
+      { destruct (cc cv <? c) eqn:EC.
+        - rewrite pad_lr_nonneg by lia. eexists. split; [reflexivity|].
+          pose proof (inside_pad_lr cv 0 (c - cc cv) ltac:(lia) ltac:(lia) J4) as IP. cbn in IP |- *.
+          repeat split; auto. lia.
+        - exists cv. repeat split; auto. lia. }
+      destruct S1 as [c1 [E1 [A1 [A2 [A3 A4]]]]]. rewrite E1. cbn [bind].
+      assert (0 <= cr cv).
+      { rewrite J2, maxrows_map. destruct (fold_max_spec (map (fun e => cr (fst e)) (e0 :: data)) 0) as [_ [P2 _]]. exact P2. }
+      destruct (cr c1 <? 1) eqn:ER.
+      * destruct (pad_tb_nonneg c1 0 1) as [c2 [E2 [B1 [B2 [B3 B4]]]]]; try lia. rewrite E2.
+        repeat split; auto; try congruence. f_equal. lia.
+      * repeat split; auto. f_equal. lia.
   - (* box *)
     intros c r f Hs Hc Hr.
-    exact (cols_box_ok (cols_sizing l) l d mw fp c r f HG HO Hs Hd ltac:(lia) Hfp Hc Hr).
+    exact (cols_box_ok k (cols_sizing l) l d mw fp c r f Hk0 HG HO Hs Hd ltac:(lia) Hfp Hc Hr).
 Qed.
